@@ -1,11 +1,14 @@
 """C20 — Extract variable and extract function preserve behaviour.
 
 Level: translation validation (certified validator, DESIGN §3 (V)).
-Proof (GardenVerif.Props.C20): `hoistCheck_sound`, `funextCheck_sound` (the decision procedures imply the relations
-`IsLetHoist` / `IsFunExtract`), `pure_keeps_state_partial` (a pure call-free expression never changes store or output),
-`hoisted_use_partial` (local step: after `let n = e` the use `n` evaluates like `e`). The lift through the statement's
-context (`let_hoist_sound`, `fun_extract_sound`) is NOT proved (needs a simulation up to a store injection); it is
-covered per input by the oracle below.
+Proof (GardenVerif.Props.C20, closure-free restriction of RefSem, all programs, all fuel): `hoistCheck_sound`,
+`funextCheck_sound` (the decision procedures imply the relations `IsLetHoist` / `IsFunExtract`);
+`let_hoist_sound_partial` / `let_hoist_behaviour_partial` / `hoistCheck_behaviour_partial` (IsLetHoist + the decidable
+side conditions `hoistSafe`: a run of the original that ends without error is reproduced, same result and output, by
+the extracted program); `fun_extract_sound_partial` / `fun_extract_behaviour_partial` (IsFunExtract + `funSafe`: same);
+`pure_keeps_state_partial`, `hoisted_use_partial`. The driver evaluates `hoistSafe` / `funSafe` on the real trees; the
+inputs where they do not hold (impure sub-expression evaluated before the selection, call in the selection, …) are
+covered by the oracle only and counted (`*_theorem_applies`).
 
 Per input: assignment-free RGen programs (closures, loops over lists, match, if, functions); targets = pure
 sub-expressions (literals, variables, operators, parentheses, list / tuple literals, calls of string_repr / Some),
@@ -233,17 +236,18 @@ def run(ctx):
     vstat = {"extract_variable": 0, "extract_function": 0, "params": {}}
     for (tool, i, c, txt), x in zip(meta, lr):
         e = c[0]
-        mm = re.match(r"^OK \(extract (\d) (\d) (\d+) (\d) \(params((?: \S+)*)\)\)$", x or "")
+        mm = re.match(r"^OK \(extract (\d) (\d) (\d+) (\d) (\d) \(params((?: \S+)*)\)\)$", x or "")
         inp = {"src": srcs[i], "tool": tool, "offset": int(e[3]), "end": int(e[4]), "id": e[1], "context": c[3], "after": txt}
         if not mm:
             ctx.disagree(tool + "_check", inp, x, "tool output accepted by the oracle")
             continue
-        chk, pure, hits, fresh, params = mm.groups()
+        chk, pure, hits, fresh, safe, params = mm.groups()
         if chk != "1" or pure != "1" or hits != "1" or fresh != "1":
             ctx.disagree(tool + "_check", inp, "schema=%s Pure=%s nodes-with-id=%s fresh=%s" % (chk, pure, hits, fresh),
                          "tool output accepted by the oracle; generator says the selection is pure")
         else:
             vstat[tool] += 1
+            vstat[tool + "_theorem_applies"] = vstat.get(tool + "_theorem_applies", 0) + (safe == "1")
             if tool == "extract_function":
                 k = len(params.split())
                 vstat["params"][k] = vstat["params"].get(k, 0) + 1
@@ -269,8 +273,9 @@ def run(ctx):
                    failure_keys=sorted({f["key"] for f in ctx.failures}),
                    known_keys_hit=sorted({k["key"] for k in ctx.known_hit}))
     ctx.assumptions += [
-        "let_hoist_sound / fun_extract_sound are not proved (only the relations' deciders, purity-keeps-state and the "
-        "local step); behaviour preservation is decided per input by the real evaluator before / after",
+        "let_hoist_sound_partial / fun_extract_sound_partial need the side conditions hoistSafe / funSafe (evaluated on "
+        "the real trees; coverage[validator_accepted][*_theorem_applies]) and are about the closure-free RefSem; for the "
+        "other inputs behaviour preservation is decided only by the real evaluator before / after",
         "Pure = literals, variables, operators, parentheses, list / tuple literals, calls of string_repr / Some / Ok / Err; "
         "a pure expression may still raise an error: only originals that run without error are compared (as the "
         "property says)",
